@@ -20,8 +20,9 @@ Qed.
 Lemma shape_eqb_eq a b : shape_eqb a b = true -> a = b.
 Proof.
   unfold shape_eqb. intros H.
-  apply andb_prop in H as [H H4]. apply andb_prop in H as [H H3]. apply andb_prop in H as [H1 H2].
+  apply andb_prop in H as [H H5]. apply andb_prop in H as [H H4]. apply andb_prop in H as [H H3]. apply andb_prop in H as [H1 H2].
   apply (list_eqb_eq _ fk_eqb_eq) in H1. apply Nat.eqb_eq in H2, H3. apply (list_eqb_eq _ slot_eqb_eq) in H4.
+  apply Bool.eqb_prop in H5.
   destruct a, b; cbn in *. congruence.
 Qed.
 
@@ -29,8 +30,8 @@ Qed.
 Lemma edges_ret i pc s rc ts : ret_of i s = Some rc -> edges i pc s = Some ts ->
   exists s', ts = [(fst rc, s')].
 Proof.
-  unfold ret_of. destruct i; try discriminate. destruct s as [f c a k]; cbn [frames].
-  destruct f as [|[|[[r cap]|]] f]; try discriminate. intros H; inversion H; subst rc. cbn [edges frames caps aes stk fst].
+  unfold ret_of. destruct i; try discriminate. destruct s as [f c a k x]; cbn [frames].
+  destruct f as [|[|[[r cap]|]] f]; try discriminate. intros H; inversion H; subst rc. cbn [edges frames caps aes stk ext fst].
   destruct (popV ret_pops k); [|discriminate]. destruct cap.
   - destruct c; [discriminate|]. intros H2; inversion H2. eexists; reflexivity.
   - intros H2; inversion H2. eexists; reflexivity.
@@ -54,19 +55,24 @@ Proof.
   intros pc Hpc. apply H. apply in_seq. lia.
 Qed.
 
-(* "good" configuration: inside the stream in exactly the annotated shape; or (entry-point
+(* "good" configuration: inside the stream in one of the annotated shapes; or (entry-point
    analyses only) at the end of the stream in the final shape *)
 Definition good (c : nat * shape) : Prop :=
-  (fst c < length C /\ nth_error A (fst c) = Some (Some (snd c)))
+  (fst c < length C /\ in_ann A (fst c) (snd c) = true)
   \/ (m = None /\ fst c = length C /\ final_ok (snd c) = true).
+
+Lemma in_ann_In pc s : in_ann A pc s = true -> exists l, nth_error A pc = Some l /\ In s l.
+Proof.
+  unfold in_ann. destruct (nth_error A pc) as [l|]; [|discriminate]. intros H.
+  apply existsb_exists in H as (x & Hx & He). apply shape_eqb_eq in He. subst x. eauto.
+Qed.
 
 Lemma target_good t : target_ok C A m t = true -> good t.
 Proof.
   destruct t as [pc s]. unfold target_ok, good. cbn [fst snd]. intros H.
   destruct (Nat.eqb pc (length C)) eqn:E.
   - apply Nat.eqb_eq in E. right. destruct m; [discriminate|]. auto.
-  - destruct (nth_error A pc) as [[st|]|] eqn:En; try discriminate.
-    apply shape_eqb_eq in H. subst st. left. split; [|reflexivity].
+  - left. split; [|assumption]. destruct (in_ann_In _ _ H) as (l & Hl & _).
     assert (pc < length A) by (apply nth_error_Some; congruence). pose proof Hlen. lia.
 Qed.
 
@@ -83,7 +89,10 @@ Lemma good_at pc s i : good (pc, s) -> nth_error C pc = Some i ->
 Proof.
   intros [[Hlt Ha]|[_ [Heq _]]] Hi; cbn [fst snd] in *.
   2:{ assert (nth_error C pc = None) by (apply nth_error_None; lia). congruence. }
-  pose proof (Hall pc Hlt) as Hall. unfold check_at in Hall. rewrite Hi, Ha in Hall.
+  pose proof (Hall pc Hlt) as Hall. unfold check_at in Hall. rewrite Hi in Hall.
+  destruct (in_ann_In _ _ Ha) as (l & Hl & Hin). rewrite Hl in Hall.
+  apply andb_prop in Hall as [Hall _]. rewrite forallb_forall in Hall. specialize (Hall s Hin).
+  unfold check_shape in Hall.
   destruct (edges i pc s) as [ts|] eqn:E; [|discriminate]. exists ts. split; [reflexivity|].
   destruct (ret_of i s) as [rc|] eqn:Er.
   - destruct m as [rc'|]; [|discriminate].
@@ -98,10 +107,23 @@ Qed.
 Lemma good_inside pc s : good (pc, s) -> pc <= length C.
 Proof. intros [[H _]|[_ [H _]]]; cbn in *; lia. Qed.
 
-Lemma good_unique c c' : good c -> good c' -> fst c' = fst c -> fst c < length C -> snd c' = snd c.
+Lemma agree_core l s s' : agree l = true -> In s l -> In s' l -> core s' = core s.
+Proof.
+  destruct l as [|h r]; [intros _ []|]. cbn [agree]. intros H Hs Hs'. rewrite forallb_forall in H.
+  assert (Hh : forall x, In x (h :: r) -> core x = core h).
+  { intros x [<-|Hx]; [reflexivity|]. symmetry. apply shape_eqb_eq. apply H. assumption. }
+  rewrite (Hh s Hs), (Hh s' Hs'). reflexivity.
+Qed.
+
+Lemma good_unique c c' : good c -> good c' -> fst c' = fst c -> fst c < length C -> core (snd c') = core (snd c).
 Proof.
   intros [[_ Ha]|[_ [Heq _]]] [[_ Ha']|[_ [Heq' _]]] Hpc Hlt; try lia.
-  rewrite Hpc in Ha'. congruence.
+  rewrite Hpc in Ha'.
+  destruct (in_ann_In _ _ Ha) as (l & Hl & Hin). destruct (in_ann_In _ _ Ha') as (l' & Hl' & Hin').
+  rewrite Hl in Hl'. inversion Hl'; subst l'.
+  pose proof (Hall _ Hlt) as H. unfold check_at in H. rewrite Hl in H.
+  destruct (nth_error C (fst c)); [|discriminate]. apply andb_prop in H as [_ H].
+  eapply agree_core; eassumption.
 Qed.
 End Act.
 
@@ -163,14 +185,15 @@ Lemma has_loop_app f g : has_loop f = true -> has_loop (f ++ g) = true.
 Proof. unfold has_loop. rewrite existsb_app. intros ->. reflexivity. Qed.
 
 Definition lift_t (b : shape) (t : nat * shape) : nat * shape := (fst t, lift b (snd t)).
+Definition instr_is_loadblocks (i : instr) : bool := match i with ILoadBlocks => true | _ => false end.
 
 (* frames, captures, auto-escape entries and operands of the caller underneath never change
-   what an instruction does *)
-Lemma edges_lift i pc b s ts : edges i pc s = Some ts ->
+   what an instruction does ... *)
+Lemma edges_lift_eq i pc b s ts : i <> ILoadBlocks -> edges i pc s = Some ts ->
   edges i pc (lift b s) = Some (map (lift_t b) ts).
 Proof.
-  destruct s as [f c a k], b as [fb cb ab kb]. unfold lift, lift_t. cbn [frames caps aes stk].
-  destruct i; cbn [edges frames caps aes stk with_stk with_frames]; intros He.
+  intros Hi. destruct s as [f c a k x], b as [fb cb ab kb xb]. unfold lift, lift_t. cbn [frames caps aes stk ext].
+  destruct i; cbn [edges frames caps aes stk ext with_stk with_frames]; intros He.
   - (* IStack *) destruct (popV pops k) as [k'|] eqn:E; [|discriminate]. inversion He; subst.
     rewrite (popV_app _ _ _ kb E). cbn. unfold pushV. rewrite app_assoc. reflexivity.
   - inversion He; subst. reflexivity.
@@ -201,16 +224,34 @@ Proof.
   - inversion He; subst. reflexivity.
   - destruct dyn; destruct k as [|[|] k]; try discriminate; inversion He; subst; reflexivity.
   - destruct k as [|[|] k]; try discriminate. inversion He; subst. reflexivity.
+  - congruence.
+Qed.
+
+(* ... except that a second `extends` fails where a first one goes on: the machine on top of a
+   caller has the lifted successors or fewer *)
+Lemma edges_lift i pc b s ts : edges i pc s = Some ts ->
+  exists ts', edges i pc (lift b s) = Some ts' /\ incl ts' (map (lift_t b) ts).
+Proof.
+  intros He. destruct (instr_is_loadblocks i) eqn:Hi.
+  - destruct i; try discriminate. clear Hi.
+    destruct s as [f c a k x], b as [fb cb ab kb xb]. unfold lift, lift_t in *. cbn [edges frames caps aes stk ext] in *.
+    destruct k as [|[|] k]; try discriminate. cbn [app]. destruct x; cbn [orb].
+    + inversion He; subst. exists []. split; [reflexivity|apply incl_nil_l].
+    + inversion He; subst. destruct xb.
+      * exists []. split; [reflexivity|apply incl_nil_l].
+      * eexists. split; [reflexivity|]. cbn. apply incl_refl.
+  - exists (map (lift_t b) ts). split; [|apply incl_refl]. apply edges_lift_eq; [|assumption].
+    intros ->. discriminate.
 Qed.
 
 Lemma lift_assoc b x e : lift b (lift x e) = lift (lift b x) e.
-Proof. unfold lift. cbn [frames caps aes stk]. rewrite <- !app_assoc, <- !Nat.add_assoc. reflexivity. Qed.
+Proof. unfold lift. cbn [frames caps aes stk ext]. rewrite <- !app_assoc, <- !Nat.add_assoc, <- !orb_assoc. reflexivity. Qed.
 
 (* a defined instruction that is no call has no call argument, also with the caller underneath *)
 Lemma call_arg_lift i pc b s ts : edges i pc s = Some ts ->
   call_arg i (lift b s) = match call_arg i s with Some (cap, k) => Some (cap, k ++ stk b) | None => None end.
 Proof.
-  destruct s as [f c a k]. unfold call_arg, lift. cbn [frames caps aes stk].
+  destruct s as [f c a k x]. unfold call_arg, lift. cbn [frames caps aes stk ext].
   destruct i; try reflexivity; cbn [edges stk].
   - destruct dyn; destruct k as [|[|] k]; try discriminate; reflexivity.
   - destruct k as [|[|] k]; try discriminate; reflexivity.
@@ -229,7 +270,7 @@ Qed.
 Lemma call_summary i pc s cap k : call_arg i s = Some (cap, k) ->
   edges i pc s = Some [(S pc, lift (with_stk s k) (ret_rel cap))].
 Proof.
-  destruct s as [f c a st]. unfold call_arg, lift, ret_rel, with_stk. cbn [frames caps aes stk].
+  destruct s as [f c a st x]. unfold call_arg, lift, ret_rel, with_stk. cbn [frames caps aes stk ext].
   destruct i; try discriminate.
   - destruct dyn; destruct st as [|[|] st]; try discriminate; intros H; inversion H; subst; reflexivity.
   - destruct st as [|[|] st]; try discriminate; intros H; inversion H; subst; reflexivity.
@@ -303,7 +344,7 @@ Proof.
 Qed.
 
 Lemma lift_shape0 s : lift shape0 s = s.
-Proof. destruct s. unfold lift, shape0. cbn. rewrite !app_nil_r, !Nat.add_0_r. reflexivity. Qed.
+Proof. destruct s. unfold lift, shape0. cbn. rewrite !app_nil_r, !Nat.add_0_r, orb_false_r. reflexivity. Qed.
 
 Lemma step_inv c c' : inv c -> rstep C c c' -> inv c'.
 Proof.
@@ -323,10 +364,10 @@ Proof.
   - (* activation of a recursive loop on top of [base] *)
     inversion Hs as [pc0 s i ts t Hi He Hin]; subst.
     destruct (good_at C A (Some rc) _ (Hreg _ _ _ HA) pc rel i Hg Hi) as (ts0 & He0 & H).
-    rewrite (edges_lift _ _ base _ _ He0) in He. inversion He; subst ts.
+    destruct (edges_lift _ _ base _ _ He0) as (ts' & He' & Hsub). rewrite He' in He. inversion He; subst ts.
     rewrite (call_edges_lift C _ _ base _ _ He0) in Hin.
     apply in_app_or in Hin as [Hin|Hin].
-    + apply in_map_iff in Hin as ([pc1 s1] & <- & Hin). unfold lift_t. cbn [fst snd].
+    + apply Hsub in Hin. apply in_map_iff in Hin as ([pc1 s1] & <- & Hin). unfold lift_t. cbn [fst snd].
       destruct (ret_of i rel) as [rc'|].
       * destruct H as [Hm ->]. inversion Hm; subst rc'. destruct Hin as [Hin|[]]. inversion Hin; subst. exact Hret.
       * destruct H as [Hts _]. eapply inv_reg; [exact HA| |exact Hret]. apply Hts. assumption.
@@ -353,7 +394,7 @@ Proof.
   intros Hinv (i & Hi & He). destruct Hinv as [[pc s] Hg|p rc A pc rel base HA Hg Hret]; cbn [fst snd] in *.
   - destruct (good_at C Am None entries Hmain pc s i Hg Hi) as (ts & He' & _). congruence.
   - destruct (good_at C A (Some rc) _ (Hreg _ _ _ HA) pc rel i Hg Hi) as (ts & He' & _).
-    rewrite (edges_lift _ _ base _ _ He') in He. discriminate.
+    destruct (edges_lift _ _ base _ _ He') as (ts' & He2 & _). congruence.
 Qed.
 
 Lemma inv_inside c : inv c -> fst c <= length C.
